@@ -8,7 +8,7 @@ reference consensus interpreter as oracle in both directions (too lax / too stri
 """
 import itertools
 
-from vf import txgen
+from vf import txgen, txhist
 from vf.ref import secp, codec, tx as rtx, interp
 
 ID = 'C02'
@@ -504,11 +504,16 @@ def sub_siglen(case):
         t = txgen.build(spec, sign=False, keys_per_input=[[] for _ in spec['inputs']])
         comp = txgen.KINDS[spec['inputs'][0]['kind']][2]
         t.sign(keys=[_libkey(spec['inputs'][0]['keys'][0], comp)], index_n=0)
-        out.append([lt, len(t.inputs[0].signatures[0].as_der_encoded())])
+        sg = t.inputs[0].signatures[0]
+        out.append([lt, len(sg.as_der_encoded()), (sg.r >> 248) & 0xff])
     return {'ret': out, 'n': len(out), 'out': 'scanned'}
 
 
-SUBS = {'siglen': sub_siglen, 'hist': sub_hist, 'tamper_bytes': sub_tamper_bytes, 'tamper_object': sub_tamper_object}
+def sub_txhist(case):
+    return txhist.sub_hist(case, txhist.check_verify_equals_reference)
+
+
+SUBS = {'siglen': sub_siglen, 'txhist': sub_txhist, 'hist': sub_hist, 'tamper_bytes': sub_tamper_bytes, 'tamper_object': sub_tamper_object}
 
 
 def run(ctx):
@@ -534,7 +539,7 @@ def run(ctx):
     # giving a signature of <= 70 bytes with its hash-type byte (r or s with a leading zero byte, about 1 in 85)
     # and the first giving 72 bytes are added as configurations
     short = []
-    W = 600
+    W = 1200
     kinds_s = (['p2wpkh'], ['p2wsh_ms'], ['p2sh_p2wsh_ms'], ['p2sh_p2wpkh'], ['p2pkh'], ['p2sh_ms'], ['p2pk'])
     bases = []
     for k in kinds_s:
@@ -545,9 +550,11 @@ def run(ctx):
     for bi, base in enumerate(bases):
         lens = {}
         for r in scans[bi * (W // 25):(bi + 1) * (W // 25)]:
-            for lt, ln in r:
+            for lt, ln, r0 in r:
                 lens.setdefault('short' if ln <= 70 else 'long' if ln >= 72 else 'usual', lt)
-        for tag in ('short',) if q else ('short', 'long'):
+                if r0 == 0x30:
+                    lens.setdefault('r_starts_with_0x30', lt)     # the 64-byte r||s form then starts like a DER sequence
+        for tag in ('short', 'r_starts_with_0x30') if q else ('short', 'r_starts_with_0x30', 'long'):
             if tag not in lens:
                 ctx.cap('no %s signature for %s within %d locktimes' % (tag, base['kinds'][0], W))
                 continue
@@ -574,6 +581,10 @@ def run(ctx):
             choices.append(sets)
         for signers in itertools.product(*choices):
             tcases.append({'cfg': cfg, 'signers': [list(s) for s in signers]})
+    # operation histories on one live Transaction object that holds its private keys (locktime setters, bumpfee,
+    # shuffles, edits, sign_and_update ...): verify() must agree with the reference verdict on raw() in every state
+    hcfgs = [({'kinds': k, 'seed': seed % 1000, 'events': txhist.EVENTS}, 2 if q else 3) for k in txhist.CONFIGS]
+    ctx.note('object_history_states', ctx.bfs_multi('txhist', hcfgs, max_states=3000 if q else 40000))
     ctx.pmap('tamper_bytes', tcases, chunk=1)
     ctx.pmap('tamper_object', [{'cfg': c} for c in cfgs], chunk=1)
     ctx.note('bounds', {'configs': len(cfgs), 'm_of_n': mns, 'history_depth': depth, 'history_states': total,
